@@ -151,6 +151,16 @@ def main():
                     broken.append(f"{t} depends on axioms {bad}")
                 else:
                     discharged += 1
+    # 4b. thorough tier: independent re-check of the property file and everything it depends on with coqchk
+    coqchk_report = None
+    if args.tier == "thorough" and ok:
+        rc_, o_ = vlib.run_cmd(["coqchk", "-silent", "-o", "-Q", "theories", "PM", "-Q", "gen", "PMGen", "-Q", "props", "PMProps",
+                                f"PMProps.{cid}"], cwd=vlib.COQ, timeout=3000)
+        import re as _re
+        m_ = _re.search(r"\* Axioms:(.*?)\n\s*\n", o_, _re.S)
+        coqchk_report = {"exit": rc_, "axioms": (m_.group(1).strip() if m_ else "?")}
+        if rc_ != 0 or not m_ or m_.group(1).strip() != "<none>":
+            broken.append(f"coqchk on props/{cid}.vo: exit {rc_}, axioms {coqchk_report['axioms'][:300]} :: {o_[-300:]}")
     # 5. plugin: correspondence + search
     ctx = Ctx(cid, args.tier, model_ok, list(broken))
     try:
@@ -202,6 +212,7 @@ def main():
         "broken_obligations": broken,
         "known_findings_reproduced": [open_sigs[k]["what"] for k in seen_known],
         "explanation": getattr(plugin, "EXPLANATION", ""),
+        "coqchk": coqchk_report,
     }
     for k, v in stats.items():
         if k not in ("extra_obligations", "extra_discharged"):
